@@ -10,12 +10,21 @@ for d in sorted(glob.glob("/verif/seeded/*")):
     need = re.sub(r"\s+", " ", (m.get("needs_to_manifest") or "")).strip()
     cut = lambda s, n: s if len(s) <= n else s[:n - 1].rsplit(" ", 1)[0] + " …"
     rows.append("| %s | %s | %s | %s | %s |" % (os.path.basename(d), cut(summ, 230).replace("|", "/"), cut(need, 200).replace("|", "/"), caught, (m.get("note") or "").replace("|", "/")))
+own = 0
+anyc = 0
+for d in sorted(glob.glob("/verif/seeded/*")):
+    m = json.load(open(d + "/meta.json"))
+    ch = m.get("checks") or {}
+    own += 1 if (ch.get(m.get("property").split(",")[0]) or {}).get("caught") else 0
+    anyc += 1 if any(v.get("caught") for v in ch.values()) else 0
+count = "%d kept changes; %d are caught by the quick tier of the property they were written against, %d by the quick tier of some check." % (len(rows), own, anyc)
 table = "| id | change | needs, to manifest | caught by (signature) | note |\n|---|---|---|---|---|\n" + "\n".join(rows)
 p = "/verif/DESIGN.md"
 s = open(p).read()
 a, b = "<!-- SEEDED-TABLE-BEGIN -->", "<!-- SEEDED-TABLE-END -->"
 if a in s:
     s = s[:s.index(a) + len(a)] + "\n" + table + "\n" + s[s.index(b):]
+    s = re.sub(r"<!-- SEEDED-COUNT -->.*?<!-- /SEEDED-COUNT -->", "<!-- SEEDED-COUNT -->" + count + "<!-- /SEEDED-COUNT -->", s, flags=re.S)
     open(p, "w").write(s)
     print("table updated:", len(rows), "rows")
 else:
